@@ -118,13 +118,13 @@ CLAIMED = {
    text="PrintLock.tla models a print call as Acquire; WriteFragment*; Release; TLC explores all schedules of 3 threads x 2 calls x 3 fragments and shows the output is a concatenation of whole records, while the per-fragment-locking variant (what a non-forwarded write_fmt/write_all does) yields an interleaving counterexample. Real schedules: a child process with 2..16 threads issues multi-fragment print!/println!/write!/write_all calls (escape sequences split across fragments, buffers longer than std's line buffer) through anstream::stdout()/stderr() into a shrunk pipe read slowly, in stripping and pass-through mode; the byte stream is cut into fragments and validated by Trace_PrintLock. AtomicChoice.tla specifies the global choice as a linearizable register; histories of concurrent readers/writers (short rounds and long stress rounds), ordered by SeqCst invocation/response numbers, are checked by a TLC depth-first search for a linearization.",
    design="5/C19",
    note="TLC explores all schedules of the model; the real threads show only the schedules the OS produces (16 cores, small pipe, slow reader). No hook is placed inside std's lock. Trusted: PrintLock.tla, AtomicChoice.tla, TLC, the tokenizer of the pipe content.",
-   technique="TLA+ spec (PrintLock, AtomicChoice) + TLC: exhaustive schedule exploration of the model; observed pipe output and register histories validated by TLC (linearization search)"),
+   technique="TLA+ spec (PrintLock, AtomicChoice) + TLC: exhaustive schedule exploration of the model; TLAPS proof of the lock-per-call design for any number of threads, calls and fragments; observed pipe output and register histories validated by TLC (linearization search)"),
  "C04": dict(
    level="exploration",
-   text="Seeded escape-rich, boundary-rich, arbitrary-byte and arbitrary-Unicode inputs are pushed through every entry point the statement lists (parser, strip and styled-run adapters, strip stream, git and LS_COLORS parsers, lossy conversion with arbitrary palettes, render_svg, to_roff) in a build with debug assertions and overflow checks on, each call under catch_unwind; returned text pieces must be valid UTF-8 lying inside the input; one event per input is validated by the Trace_Total specification (totality: a panic is never a behaviour of the specification). TLC additionally checks, on the specification, the state invariants that make the crate's unsafe blocks sound (parameter/intermediate/OSC bookkeeping limits, text pieces on character boundaries). All other checks also record panics as data and reject them.",
+   text="Seeded escape-rich, boundary-rich, arbitrary-byte and arbitrary-Unicode inputs are pushed through every entry point the statement lists (parser, strip and styled-run adapters, strip stream, git and LS_COLORS parsers, lossy conversion with arbitrary palettes, render_svg, to_roff) in a build with debug assertions and overflow checks on, each call under catch_unwind; returned text pieces must be valid UTF-8 lying inside the input; one event per input is validated by the Trace_Total specification (totality: a panic is never a behaviour of the specification). TLC additionally checks, on the specification, the state invariants that make the crate's unsafe blocks sound (parameter/intermediate/OSC bookkeeping limits, text pieces on character boundaries). The same exploration runs a second time in an AddressSanitizer build (nightly toolchain; skipped with a note in the evidence when it is absent). Thorough tier: Apalache discharges an inductive invariant of the parameter bookkeeping at its real size (index safety of Params push/extend and of its iterator, for all states). All other checks also record panics as data and reject them.",
    design="5/C04",
-   note="Exploration level: absence of memory errors in release builds cannot be decided by traces; Miri/ASan are not run by this check. Trusted: the harness' catch_unwind and pointer-range observation.",
-   technique="TLA+ spec invariants (VtParser limits, Strip boundaries) checked by TLC + seeded exploration of all entry points validated against the totality trace specification"),
+   note="Exploration level: absence of memory errors cannot be decided by traces; AddressSanitizer sees out-of-bounds and use-after-free in the crates' code but not uninitialised reads or invalid enum values (Miri is too slow here: 200 inputs > 25 min). Trusted: the harness' catch_unwind and pointer-range observation.",
+   technique="TLA+ spec invariants (VtParser limits, Strip boundaries) checked by TLC, Params inductive invariant by Apalache (thorough) + seeded exploration of all entry points (ordinary and AddressSanitizer build) validated against the totality trace specification"),
 }
 PENDING_REASON = "check not built yet in this revision of /verif (planned with the TLA+ specification, see DESIGN.md section 5); not claimed until its quick command exists"
 
